@@ -49,8 +49,8 @@ fn transform(rng: &mut Rng, text: &str, which: usize) -> String {
             let k = idxs[rng.below(idxs.len())];
             lines.iter().enumerate().map(|(i, l)| if i == k { format!("{l} -- note é") } else { l.to_string() }).collect::<Vec<_>>().join("\n")
         }
-        2 => { // trailing spaces
-            let idxs: Vec<usize> = (0..lines.len()).filter(|&i| !lines[i].trim().is_empty() && !in_front(&lines, i)).collect();
+        2 => { // trailing spaces: on any non-empty line, the fence lines and the (plain `key: value`) lines of a front matter included
+            let idxs: Vec<usize> = (0..lines.len()).filter(|&i| !lines[i].trim().is_empty()).collect();
             if idxs.is_empty() { return text.to_string(); }
             let k = idxs[rng.below(idxs.len())];
             lines.iter().enumerate().map(|(i, l)| if i == k { format!("{l}{}", rng.pick_str(&[" ", "  ", "   "])) } else { l.to_string() }).collect::<Vec<_>>().join("\n")
